@@ -950,6 +950,9 @@ pub fn c02_def() -> HistProp {
 // ---------------------------------------------------------------------------
 
 /// The images after each prefix of the transition's write log: index k = after k writes (k = 1..=n).
+pub static CRASH_IMAGES: std::sync::atomic::AtomicU64 = std::sync::atomic::AtomicU64::new(0);
+pub static CRASH_TRANSITIONS: std::sync::atomic::AtomicU64 = std::sync::atomic::AtomicU64::new(0);
+
 pub fn crash_images(st: &Step) -> Vec<(usize, Image)> {
     let mut out = Vec::new();
     let Some(pre) = &st.pre else { return out };
@@ -959,6 +962,10 @@ pub fn crash_images(st: &Step) -> Vec<(usize, Image)> {
         cur.put(c.idx, c.data.as_ref().unwrap());
         k += 1;
         out.push((k, cur.clone()));
+    }
+    if !out.is_empty() {
+        CRASH_IMAGES.fetch_add(out.len() as u64, std::sync::atomic::Ordering::Relaxed);
+        CRASH_TRANSITIONS.fetch_add(1, std::sync::atomic::Ordering::Relaxed);
     }
     out
 }
